@@ -6,6 +6,7 @@ import Proofs.Lemmas.Router.Rp3_ReqRun
 import Proofs.Lemmas.Router.Rp1_Ack
 import Proofs.Lemmas.Router.Rp2_Payload
 import Proofs.Lemmas.Router.Rp5_Reach
+import Proofs.Lemmas.Router.Rp9_Reach
 namespace C17
 open Router Router.Rp3 CommitLog
 
@@ -257,6 +258,48 @@ theorem rewind_moves_group_cursor_back (sh : List (String × SharedGroup)) (gnam
     alookup gname (rewindRequests sh retx [r] []).1 = some { grp with cursor := c } := by
   simp [rewindRequests, hr, hg, hs, alookup_ainsert_same]
 
+/-- the retransmission cursor of a filter index is the cursor of the FIRST window entry with that
+    index — whichever of the connection's requests on that log (a plain subscription, this group,
+    another group on the same path) the entry was forwarded for: window entries do not record it -/
+theorem retransmission_cursor_is_first_of_index (pk fi : Nat) (c : Router.Cursor) (rest : List (Nat × Nat × Option Router.Cursor)) :
+    nlookup fi (retransmissionMap ((pk, fi, some c) :: rest) []) = some c := by
+  have keep : ∀ (l : List (Nat × Nat × Option Router.Cursor)) (acc : List (Nat × Router.Cursor)),
+      nlookup fi acc = some c → nlookup fi (retransmissionMap l acc) = some c := by
+    intro l
+    induction l with
+    | nil => intro acc h; simpa [retransmissionMap] using h
+    | cons e l ih =>
+      intro acc h
+      obtain ⟨pk', fi', oc⟩ := e
+      cases oc with
+      | none => simp only [retransmissionMap]; exact ih acc h
+      | some c' =>
+        simp only [retransmissionMap]
+        split
+        · exact ih acc h
+        · exact ih _ (by rw [nlookup_append', h]; rfl)
+  simp only [retransmissionMap, nlookup, Option.isSome_none, Bool.false_eq_true, if_false, List.nil_append]
+  exact keep rest _ (by simp [nlookup])
+
+/-- C17 `rewind_can_skip_entries` (kernel-checked witness of the open defect; the model reproduces the
+    code). The departing persistent client `a` has a plain subscription `t` and the shared one
+    `$share/g/t` on the same log (index 0). Its window holds pkid 3 = offset 2 of the PLAIN subscription,
+    then pkid 4 = offset 0 forwarded through the group; the group `g/t` (remaining member `b`) stands at
+    `(0,1)`: offset 1 has not been forwarded through the group. The rewind takes the first cursor of
+    index 0, `(0,2)`, for both saved requests AND for the group: the group's cursor jumps FORWARD from
+    `(0,1)` to `(0,2)` — offsets 0 (unacknowledged) and 1 (never forwarded) are skipped for the group.
+    (`group_liveness` / `quiescent_complete_group` are statements about the cursor: they hold, and do not
+    say that skipped entries were handed out.) -/
+theorem rewind_can_skip_entries :
+    let window : List (Nat × Nat × Option Router.Cursor) := [(3, 0, some (0, 2)), (4, 0, some (0, 0))]
+    let groups : List (String × SharedGroup) := [("g/t", ⟨["b"], 0, (0, 1), .roundRobin⟩)]
+    let saved : List DataRequest := [⟨"$share/g/t", 0, 1, (0, 1), false, some "g/t"⟩, ⟨"t", 0, 1, (0, 3), false, none⟩]
+    retransmissionMap window [] = [(0, (0, 2))] ∧
+    (rewindRequests groups (retransmissionMap window []) saved []).1.map (fun p => (p.1, p.2.cursor)) = [("g/t", (0, 2))] ∧
+    (rewindRequests groups (retransmissionMap window []) saved []).2.map (fun r => (r.filter, r.cursor)) =
+      [("$share/g/t", (0, 2)), ("t", (0, 2))] ∧
+    rewoundLogs groups (retransmissionMap window []) saved = [0] := by decide
+
 /-! ### a parked member is woken when the turn passes to it (repair of the shared-subscription stall)
 
 A member of a shared group whose request found nothing to read — or whose turn it was not — is
@@ -414,13 +457,17 @@ theorem disconnection_wakes_members_the_turn_passed_to {s s' : RState} {id : Nat
   simp only [hc] at h
   obtain ⟨a, b, _, _⟩ := wakeParked_spec h
   have hd : (hdFinal s id c r).datalog = (datalogClean s.datalog id).1 := (hdFinal_fields s id c r).2.2.2.2.2.2.2.1
-  have hm : hdMoved (hdNotify s c r) id c = turnMovedLogs (datalogClean s.datalog id).1 s.shared c.clientId := by
-    unfold hdMoved; cases r <;> rfl
-  rw [hm] at a b
+  have hm : hdTurnMoved (hdNotify s c r) id c = turnMovedLogs (datalogClean s.datalog id).1 s.shared c.clientId := by
+    unfold hdTurnMoved; cases r <;> rfl
+  have hi' : i ∈ hdMoved (hdNotify s c r) id c := by
+    unfold hdMoved
+    split
+    · exact List.mem_append_left _ (hm ▸ hi)
+    · exact hm ▸ hi
   rw [hd] at a b
-  refine ⟨a i hi fd hfd, ?_⟩
+  refine ⟨a i hi' fd hfd, ?_⟩
   obtain ⟨fd', h1, h2⟩ := b i fd hfd
-  exact ⟨fd', h1, by simpa [hi] using h2⟩
+  exact ⟨fd', h1, by simpa [hi'] using h2⟩
 
 /-! ### non-vacuity -/
 
@@ -528,5 +575,133 @@ example : ∃ s', consume stallState2 = .ok (s', true) ∧
     (getConn s' 1).map (fun c => (c.tracker.requests, c.tracker.status)) = some ([stallReqB], .ready) ∧
     s'.readyqueue = [1, 0] ∧ s'.datalog.native.map (·.waiters) = [[]] ∧ s'.turnMoved = [] :=
   ⟨_, (consume_eqX _).trans rfl, by decide, by decide, by decide, by decide, by decide, by decide⟩
+
+/-! ### completeness at idle for a shared group -/
+
+/-- C17 (group liveness, invariant). In every reachable state below the no-overflow bound
+    (`max_outgoing_packet_count > 0`), for every shared group `g` with log `i` (the log of the group's
+    path): the group's cursor is at the END of log `i`, or the connection that holds the group's turn
+    has NO request of the group parked on log `i` (its request is tracked — so its connection is
+    `Ready` and queued, or waits for its own client, `C01.scheduler_status_facts` — or it is in
+    `notifications` on its way to the tracker). Moreover the group table is well formed: group keys are
+    distinct, the turn index is valid (the turn holder is a member), keys have the form
+    `<share>/<path>`. Every way a group's cursor or turn changes is covered: a sweep of the turn holder
+    (`noteTurn` → `wake_parked` at the end of `consume`), UNSUBSCRIBE and disconnection of a member
+    (turn passed on → woken), the rewind of a departing persistent member's unacknowledged forwards
+    (the repaired defect: the groups set back are woken), a new member, a resumed session re-creating
+    or rejoining a group (its own requests are tracked), appends (wake all waiters of the log). -/
+theorem group_liveness {cfg : Config} (h1 : 1 ≤ cfg.maxSegmentSize) (h2 : 1 ≤ cfg.maxSegmentCount)
+    (hpos : 0 < cfg.maxOutgoingPacketCount) {s : RState} (hr : Reachable cfg s) (hno : NoOverflow s) :
+    (s.shared.map (·.1)).Nodup ∧
+    (∀ p ∈ s.shared, ∃ cid ∈ p.2.clients, p.2.current = some cid) ∧
+    (∀ p ∈ s.shared, ∀ i, s.datalog.filterIdx? (gpath p.1) = some i →
+      (∃ fd, s.datalog.native[i]? = some fd ∧ cursorAbs (logC fd.log) p.2.cursor = (logC fd.log).nextAbs) ∨
+      (∀ id c r, getConn s id = some c → p.2.current = some c.clientId → r.group = some p.1 →
+        ¬ ∃ fd, s.datalog.native[i]? = some fd ∧ (id, r) ∈ fd.waiters)) := by
+  have hg := GL.reachable h1 h2 hpos hr hno
+  have htm := turnMoved_reachable hr
+  refine ⟨hg.nodup, fun p hp => ?_, fun p hp i hi => ?_⟩
+  · have hw := hg.wf p hp
+    refine ⟨p.2.clients[p.2.idx], List.getElem_mem hw, ?_⟩
+    unfold SharedGroup.current
+    exact List.getElem?_eq_getElem hw
+  · rcases hg.lv p hp i hi with h | h | h
+    · exact .inl h
+    · rw [htm] at h; cases h
+    · exact .inr h
+
+/-- C17 `quiescent_complete_group`. In a reachable state, let `g` be a shared group whose turn holder is
+    the live connection `id`, subscribed to the group's filter `f` (`extract_group f = (g, _)`), and
+    idle: its tracker holds no request (it is `Paused(Caughtup)`, `C01.scheduler_status_facts`); between
+    two router steps `notifications` is empty. Then the group's cursor is at the END of the log of the
+    group's path: a read from it returns nothing. This is a statement about the CURSOR: with
+    `at_most_one_member_partial` the entries between the position the cursor was last SET to (creation,
+    re-creation, or a rewind on a member's disconnect — which can also set it forward,
+    `rewind_can_skip_entries`) and the end have been forwarded through the group to some member; nothing
+    is claimed about entries a rewind jumped over. In particular this holds when every member is idle. -/
+theorem quiescent_complete_group {cfg : Config} (h1 : 1 ≤ cfg.maxSegmentSize) (h2 : 1 ≤ cfg.maxSegmentCount)
+    (hpos : 0 < cfg.maxOutgoingPacketCount) {s : RState} (hr : Reachable cfg s) (hno : NoOverflow s)
+    {g : String} {grp : SharedGroup} (hgm : (g, grp) ∈ s.shared)
+    {id : Nat} {c : Conn} (hc : getConn s id = some c) (hturn : grp.current = some c.clientId)
+    {f path : String} (hf : f ∈ c.subscriptions) (hfg : extractGroup f = some (g, path))
+    (hidle : c.tracker.requests = []) :
+    ∃ (i : Nat) (fd : FilterData) (hist : List Pub), s.datalog.filterIdx? (gpath g) = some i ∧
+      s.datalog.native[i]? = some fd ∧ Rep (logC fd.log) hist ∧ Issued (logC fd.log) grp.cursor ∧
+      cursorAbs (logC fd.log) grp.cursor = hist.length ∧
+      ∀ n, n ≤ MAX_INFLIGHT + s.config.maxOutgoingPacketCount → (fd.log.readv grp.cursor n).1 = [] := by
+  have hg := GL.reachable h1 h2 hpos hr hno
+  have hq := QI.reachable h1 h2 hpos hr hno
+  have hcs := CS.reachable h1 h2 hr hno
+  have hi := reachable_inv h1 h2 hr
+  have h3 := Inv3.reachable hr
+  obtain ⟨_, hW, _⟩ := (RC.iff s).mp h3.rc
+  have hn : s.notifications = [] := h3.inv2.binv.2
+  have htm := turnMoved_reachable hr
+  obtain ⟨i, hgi, fd, hfd, hiss⟩ := hcs.grp (g, grp) hgm
+  have hgi' : s.datalog.filterIdx? (gpath g) = some i := hgi
+  obtain ⟨hist, hrep⟩ := hi.logs fd.log (List.mem_map.mpr ⟨fd, List.mem_of_getElem? hfd, rfl⟩)
+  have hU := hno fd (List.mem_of_getElem? hfd) hist hrep
+  -- the turn holder's request of the group is parked on log `i`
+  have hf' : f ∈ subsOf s id := by unfold subsOf; rw [hc]; exact hf
+  obtain ⟨r, hown, hrf⟩ := hq.cover id f hf'
+  have hrg : r.group = some g := by
+    have := hq.gt id r hown
+    unfold GT at this
+    rw [this, hrf, hfg]; rfl
+  have hend : AbsEnd fd grp.cursor := by
+    rcases hg.lv (g, grp) hgm i hgi' with ⟨fd', a, b⟩ | h | h
+    · rw [hfd] at a; cases a; exact b
+    · rw [htm] at h; cases h
+    · exfalso
+      rcases hown with ⟨c', hc', hm⟩ | ⟨k, fdk, hfdk, hm⟩ | hnot
+      · rw [hc] at hc'; cases hc'; rw [hidle] at hm; cases hm
+      · have hk : r.filterIdx = k := hW k fdk hfdk (id, r) hm
+        have hri := (hcs.req r (.inr (.inl ⟨fdk, List.mem_of_getElem? hfdk, (id, r), hm, rfl⟩))).2 g hrg
+        rw [hgi'] at hri
+        have : i = k := (Option.some.inj hri).trans hk
+        subst this
+        exact h id c r hc hturn hrg ⟨fdk, hfdk, hm⟩
+      · unfold Notified at hnot; rw [hn] at hnot; cases hnot
+  have hend' : cursorAbs (logC fd.log) grp.cursor = hist.length := by
+    unfold AbsEnd at hend; rw [hend, hrep.nextAbs_eq]
+  refine ⟨i, fd, hist, hgi', hfd, hrep, hiss, hend', fun n hn' => ?_⟩
+  obtain ⟨v1, _, _⟩ := clog_readv_entries fd.log hist hrep grp.cursor n hiss (by omega)
+  rw [hend', List.drop_length] at v1
+  simpa using v1
+
+/-! ### regression of the defect found by this invariant (evaluated, not kernel-checked: accepting a
+    publish needs `String.fromUTF8?`, which the kernel cannot reduce) -/
+
+/-- the round-5 counterexample: `a` (persistent) and `b` share `$share/g/t`; `a` is forwarded offset 0
+    and disconnects without acknowledging it while `b` is parked and holds the turn -/
+def regressionOps : List (Op × List Choice) :=
+  [(.connect ⟨0, "a", false, false, 0, none⟩, []),
+   (.connect ⟨1, "b", true, false, 0, none⟩, []),
+   (.connect ⟨2, "p", true, false, 0, none⟩, []),
+   (.push 0 (.subscribe 1 none [⟨"$share/g/t", 1⟩]), []), (.event 0 .deviceData, []),
+   (.push 1 (.subscribe 1 none [⟨"$share/g/t", 1⟩]), []), (.event 1 .deviceData, []),
+   (.consume, []), (.consume, []), (.consume, []), (.consume, []), (.consume, []), (.consume, []),
+   (.push 2 (.publish ⟨0, 0, false, false, "t".toUTF8.toList, [120], none, [], false⟩), []),
+   (.event 2 .deviceData, [.matches [0]]),
+   (.consume, []), (.consume, []), (.consume, []), (.consume, []), (.consume, []), (.consume, []),
+   (.event 0 .disconnect, []), (.consume, []), (.consume, [])]
+
+/-- what is checked of a state: b's scheduler status is `Ready`, b is queued, b tracks its request; the
+    group's cursor; the cursors of the forwards in b's link buffer -/
+def regressionView (n : Nat) : Option (Bool × List Nat × Nat × Option Router.Cursor × List (Option Router.Cursor)) :=
+  match run (init ⟨10, 1024, 2, 10, .roundRobin⟩) (regressionOps.take n) with
+  | .error _ => none
+  | .ok s =>
+    some ((getConn s 1).any (fun c => c.tracker.status == .ready), s.readyqueue,
+      ((getConn s 1).map (fun c => c.tracker.requests.length)).getD 0,
+      (alookup "g/t" s.shared).map (·.cursor),
+      (getLink s 1).obuf.filterMap (fun n => match n with | .forward _ c => some c | _ => none))
+
+-- before the disconnect: everybody idle, the group's cursor at the end (0,1), nothing forwarded to b
+#guard regressionView 21 == some (false, [], 0, some (0, 1), [])
+-- right after `a`'s disconnect: the group is set back to (0,0) AND b is `Ready`, queued, tracking its request
+#guard regressionView 22 == some (true, [1], 1, some (0, 0), [])
+-- two `consume` calls later b has been forwarded offset 0 and the group's cursor is at the end again
+#guard regressionView 24 == some (false, [], 0, some (0, 1), [some (0, 0)])
 
 end C17
